@@ -51,11 +51,65 @@ class NFA:
         return out
 
 
+def _wordch(ch):
+    return ch.isalnum() or ch == "_"
+
+
 def included(a, a_start, a_end, b, b_start, b_end, limit=400000, skip=None):
     """Is L(a) a subset of L(b)?  Returns None if yes, else (word, provenance, position): a shortest word accepted by `a`
     and not by `b`; provenance is that of the first symbol after which no sentence of `b` is possible any more (or of the
-    last symbol when the word is a proper prefix of a sentence of `b`).  `skip(info)` removes transitions of `a`."""
-    A0 = a.closure([a_start])
+    last symbol when the word is a proper prefix of a sentence of `b`).  `skip(info)` removes transitions of `a`.
+
+    The states of `a` carry two pieces of path information:
+    * token fusion: transitions may be marked `gb` (the emission starts with a word character, nothing before it) and `ga`
+      (it ends with a word character, nothing after it); `<sp>` is an emission of white space only.  A glued emission
+      directly followed by one that starts glued is read as the single token `<fused>..`, which no grammar derives;
+    * literal-valued mutable locals (separator variables): `<set>` transitions assign a literal to a local, `<var>`
+      transitions write its current value (empty, white space, or one token)."""
+    from .grammar import lex
+
+    def var_edge(env, info):
+        """what writing the tracked local does in this environment: list of (kind, token, gb, ga)"""
+        cur = dict(env).get(info["var"])
+        vals = [cur] if cur is not None else list(info.get("values") or [])
+        out = []
+        for v in vals:
+            if v == "":
+                out.append(("eps", None, False, False))
+            elif not v.strip():
+                out.append(("sp", None, False, False))
+            else:
+                tk = lex(v)
+                out.append(("tok", tk[0], _wordch(v[0]), _wordch(v[-1])))
+        return out
+
+    def closure(triples):
+        seen = set(triples)
+        todo = list(triples)
+        while todo:
+            q, g, env = todo.pop()
+            nxt = []
+            for t in a.eps.get(q, ()):
+                nxt.append((t, g, env))
+            for t in a.tr.get(q, {}).get("<sp>", ()):
+                nxt.append((t, False, env))
+            for t in a.tr.get(q, {}).get("<set>", ()):
+                info = a.info.get((q, "<set>", t)) or {}
+                env2 = frozenset([(k_, v_) for k_, v_ in env if k_ != info.get("var")] + [(info.get("var"), info.get("val"))])
+                nxt.append((t, g, env2))
+            for t in a.tr.get(q, {}).get("<var>", ()):
+                info = a.info.get((q, "<var>", t)) or {}
+                for kind, tok, gb, ga in var_edge(env, info):
+                    if kind == "eps":
+                        nxt.append((t, g, env))
+                    elif kind == "sp":
+                        nxt.append((t, False, env))
+            for x in nxt:
+                if x not in seen:
+                    seen.add(x)
+                    todo.append(x)
+        return frozenset(seen)
+    A0 = closure([(a_start, False, frozenset())])
     B0 = b.closure([b_start])
     start = (A0, B0)
     seen = {start}
@@ -66,24 +120,39 @@ def included(a, a_start, a_end, b, b_start, b_end, limit=400000, skip=None):
         n += 1
         if n > limit:
             raise RuntimeError("inclusion search limit")
-        if a_end in A and b_end not in B:
+        if any(s_ == a_end for s_, _, _ in A) and b_end not in B:
             return (word, dead[0], dead[1]) if dead is not None else (word, prov, len(word) - 1)
-        for sym in sorted(a.symbols_from(A)):
-            targets = set()
-            p = None
-            for s in A:
-                for t in a.tr.get(s, {}).get(sym, ()):
-                    info = a.info.get((s, sym, t))
+        moves = {}
+        for s_, g, env in A:
+            for sym, ts in a.tr.get(s_, {}).items():
+                if sym in ("<sp>", "<set>"):
+                    continue
+                for t in ts:
+                    info = a.info.get((s_, sym, t))
                     if skip is not None and info is not None and skip(info):
                         continue
-                    targets.add(t)
-                    p = info or p
-            if not targets:
-                continue
-            A2 = a.closure(targets)
-            B2 = b.step(B, sym) if B else frozenset()
-            if B and sym in REFINES:
-                B2 = frozenset(B2 | b.step(B, REFINES[sym]))
+                    if sym == "<var>":
+                        for kind, tok, gb, ga in var_edge(env, info or {}):
+                            if kind == "tok":
+                                label = ("<fused>" + tok) if (g and gb) else tok
+                                moves.setdefault(label, []).append((t, ga, env, info))
+                        continue
+                    label = sym
+                    if g and info is not None and info.get("gb"):
+                        label = "<fused>" + sym
+                    moves.setdefault(label, []).append((t, bool(info.get("ga")) if info is not None else False, env, info))
+        for label in sorted(moves):
+            targets = [(t, ga, env) for t, ga, env, _ in moves[label]]
+            p = None
+            for _, _, _, info in moves[label]:
+                p = info or p
+            A2 = closure(targets)
+            if label.startswith("<fused>"):
+                B2 = frozenset()
+            else:
+                B2 = b.step(B, label) if B else frozenset()
+                if B and label in REFINES:
+                    B2 = frozenset(B2 | b.step(B, REFINES[label]))
             key = (A2, B2)
             if key in seen:
                 continue
@@ -91,7 +160,7 @@ def included(a, a_start, a_end, b, b_start, b_end, limit=400000, skip=None):
             d2 = dead
             if d2 is None and not B2:
                 d2 = (p, len(word))
-            q.append((key, word + [sym], p, d2))
+            q.append((key, word + [label], p, d2))
     return None
 
 
